@@ -262,11 +262,17 @@ fn run_exp_test_br(sh: &mut shell::Shell,
             let pair_test = &pairs_test[0];
             let line = pair_test.as_str().trim();
             let line_new = expand_args(line, &args[1..]);
-            let mut _cr_list = execute::run_command_line(sh, &line_new, true, capture);
+            let _cr_list = execute::run_command_line(sh, &line_new, true, capture);
             if let Some(last) = _cr_list.last() {
                 if last.status == 0 {
                     test_pass = true;
                 }
+            }
+            // what the test wrote is part of what the construct wrote;
+            // its status has picked the branch and is nobody's failure
+            for mut cr in _cr_list {
+                cr.status = 0;
+                cr_list.push(cr);
             }
             continue;
         }
